@@ -423,6 +423,42 @@ pub fn run(env: &Env) -> i32 {
             }
         });
     }
+    // deep nesting: chains, ladders and parentheses far deeper than the random streams reach
+    {
+        let mut deep: Vec<String> = Vec::new();
+        for n in [40usize, 63, 64, 65, 70, 100, 200, 400] {
+            let chain = (0..n).map(|k| format!("v{k}")).collect::<Vec<_>>().join(" + ");
+            deep.push(format!("contract D {{ function f ( ) public {{ x = {chain} >= 1 ; }} }}"));
+            let parens = format!("{}a >= b{}", "( ".repeat(n), " )".repeat(n));
+            deep.push(format!("contract D {{ function f ( ) public {{ x = {parens} ; }} }}"));
+            let mut ladder = String::from("if ( c0 >= 0 ) { i ++ ; }");
+            for k in 1..n {
+                ladder.push_str(&format!(" else if ( c{k} >= {k} ) {{ ++ i ; }}"));
+            }
+            deep.push(format!("contract D {{ function f ( ) public {{ {ladder} }} }}"));
+            let mut nest = String::from("x = a >= b ;");
+            for _ in 0..n {
+                nest = format!("{{ {nest} }}");
+            }
+            deep.push(format!("contract D {{ function f ( ) public {{ {nest} }} }}"));
+            let idx = format!("a{}", " [ i ++ ]".repeat(n));
+            deep.push(format!("contract D {{ function f ( ) public {{ x = {idx} ; }} }}"));
+        }
+        enum_stream(env, &mut st, deep.len() as u64, |i, s| {
+            let text = &deep[i as usize];
+            if crate::parse(text).is_none() {
+                s.count("deep_family_rejected_by_parser");
+                return vec![];
+            }
+            s.count("deep_family_files");
+            // file root and the function body, with the comparison / inc-dec / variable kinds
+            let sel = Selection { roots: vec![0, 1, 2, 3, 4, 5], sets: vec![vec![K::MoreEqual], vec![K::PostIncrement, K::PreIncrement], vec![K::Variable], vec![K::Block, K::If], detector_sets()[4].clone()] };
+            let v = check_text("deep", text, Some(&sel), s);
+            let d = crate::parse(text).map(|su| walk::max_depth(&su)).unwrap_or(0);
+            s.mark("deep_family_depths", &format!("{:04}", d));
+            v
+        });
+    }
     // random programs
     let cfg = program::GenCfg { undecided: true, plant: 70, ..Default::default() };
     tape_stream(env, &mut st, "random", env.tier.n(16_000, 400_000), 1500, |tape, s| random_case(tape, &cfg, s));
